@@ -7,6 +7,7 @@
 //   sock i tcp|udp|acc d <onDisc> <holdRx> <selfDestroyInRecv>     (flags 0/1)
 //   send i | release i | dsock i
 //   psend i | pclose i | preset i | pconn i                        (raw peer)
+//   sendfail i                                                     (the next send() the library issues on tcp socket i fails)
 //   todo t d <scheduled> | cancel t | shift t | droptodo t
 //   dpool
 // Observations per op: handler invocations (recv/recvfrom/conn/disc/todo) and futures that became ready
@@ -18,6 +19,8 @@
 #include "sockpuppet/socket_async.h"
 
 #include <arpa/inet.h>
+#include <cerrno>
+#include <dlfcn.h>
 #include <map>
 #include <netinet/in.h>
 #include <optional>
@@ -28,6 +31,23 @@
 #include <unistd.h>
 
 using namespace sockpuppet;
+
+// descriptor -> errno the next send() on it fails with (environment fault: a driver-side TCP send that fails,
+// e.g. ECONNRESET, without the receive side having noticed anything yet)
+static std::map<int, int> g_failSend;
+
+extern "C" ssize_t send(int fd, void const *buf, size_t len, int flags)
+{
+  static auto real = reinterpret_cast<ssize_t (*)(int, void const *, size_t, int)>(dlsym(RTLD_NEXT, "send"));
+  auto it = g_failSend.find(fd);
+  if(it != g_failSend.end()) {
+    int e = it->second;
+    g_failSend.erase(it);
+    errno = e;
+    return -1;
+  }
+  return real(fd, buf, len, flags);
+}
 
 namespace {
 
@@ -95,7 +115,7 @@ struct SockObj
   std::vector<int> clients;  // raw clients of an acceptor
   std::vector<BufferPtr> held;
   bool alive() const { return tcp || udp || acc; }
-  void destroy() { tcp.reset(); udp.reset(); acc.reset(); fd = -1; }
+  void destroy() { g_failSend.erase(fd); tcp.reset(); udp.reset(); acc.reset(); fd = -1; }
 };
 
 struct World
@@ -191,6 +211,7 @@ void runHistory(std::vector<std::string> const &ops)
     else if(x[0] == "pclose") legal = sockPresent(N(1)) && w.socks[N(1)].kind == "tcp";
     else if(x[0] == "preset") legal = sockPresent(N(1)) && w.socks[N(1)].kind == "tcp" &&
                                       !(sockAlive(N(1)) && unread(w.socks[N(1)].fd) > 0);
+    else if(x[0] == "sendfail") legal = sockAlive(N(1)) && w.socks[N(1)].kind == "tcp";
     else if(x[0] == "pconn") legal = sockPresent(N(1)) && w.socks[N(1)].kind == "acc";
     else if(x[0] == "todo") legal = !w.todos.count(N(1)) && drvAlive(N(2));
     else if(x[0] == "cancel" || x[0] == "shift" || x[0] == "droptodo") legal = todoAlive(N(1));
@@ -275,6 +296,8 @@ void runHistory(std::vector<std::string> const &ops)
           s.peerGone = true;
           waitReadable(s.fd);
         }
+      } else if(x[0] == "sendfail") {
+        g_failSend[w.socks.at(N(1)).fd] = ECONNRESET;
       } else if(x[0] == "pconn") {
         auto &s = w.socks.at(N(1));
         int c = ::socket(AF_INET, SOCK_STREAM, 0);
